@@ -18,9 +18,9 @@ type Output struct {
 func streams(prop string) []string {
 	switch prop {
 	case "c03":
-		return []string{"finding:lockkey.separator"}
+		return []string{"finding:lockkey.separator", "finding:upsert.pk-listed.unique-changed"}
 	case "c18":
-		return []string{"finding:where.node.func", "finding:where.string-literal", "finding:insert.pk-null-or-zero", "finding:insert.auto-batch"}
+		return []string{"finding:where.node.func", "finding:where.string-literal", "finding:insert.pk-null-or-zero", "finding:insert.auto-batch", "finding:upsert.pk-listed.unique-changed"}
 	}
 	return nil
 }
@@ -80,6 +80,9 @@ func generate(prop, stream string, r *hutil.Rng, i int) Case {
 	switch {
 	case prop == "c03" && stream == "clean" && i%4 == 1:
 		sc, meta := sfuScenario(r, i, stream)
+		return Case{Scenario: sc, Meta: meta}
+	case prop == "c03" && stream == "clean" && i%4 == 3:
+		sc, meta := txScenario(r, i)
 		return Case{Scenario: sc, Meta: meta}
 	case prop == "c03" && stream == "clean" && i%4 == 2:
 		sc, meta := isoScenario(r, i)
